@@ -218,8 +218,9 @@ theorem transfer_spec (g : Cfg) (c c2 : VSt) (frm to : Addr) (sh r : Dec)
     c.redel frm = false ∧ 0 < sh.m ∧
     ∃ x v c1 amt, c.del frm = some x ∧ c.val = some v ∧
       ¬ (frm = v.oper ∧ v.belowMinSelf (x.sub sh) = true) ∧
-      unbond c frm sh = .ok (c1, amt) ∧ ¬ (g.refuseZero = true ∧ amt ≤ 0) ∧
-      delegate c1 to amt = .ok (c2, r) := by
+      unbond c frm sh = .ok (c1, amt) ∧
+      ((g.skipZeroDelegate = true ∧ amt = 0 ∧ c2 = c1 ∧ r = Dec.zero) ∨
+       (¬ (g.skipZeroDelegate = true ∧ amt = 0) ∧ delegate c1 to amt = .ok (c2, r))) := by
   unfold transfer at h
   split at h
   · cases h
@@ -244,14 +245,16 @@ theorem transfer_spec (g : Cfg) (c c2 : VSt) (frm to : Addr) (sh r : Dec)
               · cases h
               · rename_i c1 amt hu
                 split at h
-                · cases h
+                · rename_i hrz
+                  cases h
+                  exact ⟨by simpa using hred, by omega, x, v, c2, amt, hx, hv, hg, hu, Or.inl ⟨hrz.1, hrz.2, rfl, rfl⟩⟩
                 · rename_i hrz
                   split at h
                   · cases h
                   · cases h
                   · rename_i c2' r' hd
                     cases h
-                    exact ⟨by simpa using hred, by omega, x, v, c1, amt, hx, hv, hg, hu, hrz, hd⟩
+                    exact ⟨by simpa using hred, by omega, x, v, c1, amt, hx, hv, hg, hu, Or.inr ⟨hrz, hd⟩⟩
 
 theorem jailAdj_of_guard (v : Val) (d : Addr) (nd : Dec) (h : ¬ (d = v.oper ∧ v.belowMinSelf nd = true)) :
     jailAdj v d nd = v := by
@@ -259,45 +262,60 @@ theorem jailAdj_of_guard (v : Val) (d : Addr) (nd : Dec) (h : ¬ (d = v.oper ∧
   have : ¬ (d = v.oper ∧ v.jailed = false ∧ v.belowMinSelf nd = true) := fun ⟨a, _, b⟩ => h ⟨a, b⟩
   rw [if_neg this]
 
-/-- Everything a successful `TransferDelegation` does. -/
+/-- Everything a successful `TransferDelegation` does.  Last clause: either (repaired code only) nothing was
+    unbonded and nothing is re-delegated, or the unbonded tokens are delegated for the recipient. -/
 theorem transfer_effect (g : Cfg) (c c2 : VSt) (frm to : Addr) (sh r : Dec) (hne : frm ≠ to)
     (h : transfer g c frm to sh = .ok (c2, r)) :
-    ∃ x v v2 v3 amt, c.del frm = some x ∧ c.val = some v ∧ 0 < sh.m ∧ sh.m ≤ x.m ∧ c.redel frm = false ∧
+    ∃ x v v2 amt, c.del frm = some x ∧ c.val = some v ∧ 0 < sh.m ∧ sh.m ≤ x.m ∧ c.redel frm = false ∧
       ¬ (frm = v.oper ∧ v.belowMinSelf (x.sub sh) = true) ∧
-      v.removeDelShares sh = some (v2, amt) ∧ ¬ (g.refuseZero = true ∧ amt ≤ 0) ∧
-      v2.invalidExRate = false ∧ v2.addTokensFromDel amt = some (v3, r) ∧ c2.val = some v3 ∧
+      v.removeDelShares sh = some (v2, amt) ∧
       c2.del frm = (if x.m - sh.m = 0 then none else some ⟨x.m - sh.m⟩) ∧
-      c2.del to = some ⟨dm c to + r.m⟩ ∧
       (∀ a, a ≠ frm → a ≠ to → c2.del a = c.del a) ∧
-      c2.redel = c.redel ∧ c2.ubd = c.ubd ∧ c2.bal = c.bal ∧ c2.supply = c.supply := by
-  obtain ⟨hred, hpos, x, v, c1, amt, hx, hv, hg, hu, hrz, hd⟩ := transfer_spec g c c2 frm to sh r h
+      c2.redel = c.redel ∧ c2.ubd = c.ubd ∧ c2.bal = c.bal ∧ c2.supply = c.supply ∧
+      dm c2 to = dm c to + r.m ∧
+      ((g.skipZeroDelegate = true ∧ amt = 0 ∧ r = Dec.zero ∧ c2.del to = c.del to ∧
+          c2.val = (if v2.shares.m = 0 ∧ v2.status = .unbonded then none else some v2)) ∨
+       (¬ (g.skipZeroDelegate = true ∧ amt = 0) ∧ ∃ v3, v2.invalidExRate = false ∧
+          v2.addTokensFromDel amt = some (v3, r) ∧ c2.val = some v3 ∧ c2.del to = some ⟨dm c to + r.m⟩)) := by
+  obtain ⟨hred, hpos, x, v, c1, amt, hx, hv, hg, hu, hcase⟩ := transfer_spec g c c2 frm to sh r h
   obtain ⟨x', v', v2, hx', hle, hv', hr, hval1, hdel1, f1, f2, f3, f4⟩ := unbond_spec c c1 frm sh amt hu
   rw [hx] at hx'; cases hx'
   rw [hv] at hv'; cases hv'
   rw [jailAdj_of_guard v frm _ hg] at hr
-  obtain ⟨w, v3, hw, hinv, ha, hval2, hdel2, g1, g2, g3, g4⟩ := delegate_spec c1 c2 to amt r hd
-  have hw2 : w = v2 := by
-    rw [hval1] at hw
-    split at hw
-    · cases hw
-    · cases hw; rfl
-  subst hw2
   have hto1 : c1.del to = c.del to := by
     rw [hdel1]; split <;> simp only [updD, Ne.symm hne, ite_false]
-  refine ⟨x, v, w, v3, amt, hx, hv, hpos, hle, hred, hg, hr, hrz, hinv, ha, hval2, ?_, ?_, ?_,
-    by rw [g1, f1], by rw [g2, f2], by rw [g3, f3], by rw [g4, f4]⟩
-  · rw [hdel2]; simp only [updD, hne, ite_false]
+  have hfrm1 : c1.del frm = (if x.m - sh.m = 0 then none else some ⟨x.m - sh.m⟩) := by
     rw [hdel1]
     have e : (x.sub sh).m = x.m - sh.m := rfl
     by_cases h0 : (x.sub sh).m = 0
     · rw [if_pos h0, if_pos (by omega)]; simp only [updD, ite_true]
     · rw [if_neg h0, if_neg (by omega)]; simp only [updD, ite_true]; rfl
-  · rw [hdel2]; simp only [updD, ite_true]
-    have : dm c1 to = dm c to := by unfold dm; rw [hto1]
-    rw [this]
-  · intro a h1 h2
-    rw [hdel2]; simp only [updD, h2, ite_false]
-    rw [hdel1]; split <;> simp only [updD, h1, ite_false]
+  have hoth1 : ∀ a, a ≠ frm → c1.del a = c.del a := by
+    intro a h1; rw [hdel1]; split <;> simp only [updD, h1, ite_false]
+  rcases hcase with ⟨hs, ha0, hc, hr0⟩ | ⟨hns, hd⟩
+  · subst hc; subst hr0
+    refine ⟨x, v, v2, amt, hx, hv, hpos, hle, hred, hg, hr, hfrm1, fun a h1 _ => hoth1 a h1, f1, f2, f3, f4, ?_,
+      Or.inl ⟨hs, ha0, rfl, hto1, hval1⟩⟩
+    have e : dm c2 to = (match c2.del to with | some d => d.m | none => 0) := rfl
+    have e' : dm c to = (match c.del to with | some d => d.m | none => 0) := rfl
+    rw [e, e', hto1]; simp [Dec.zero]
+  · obtain ⟨w, v3, hw, hinv, ha, hval2, hdel2, g1, g2, g3, g4⟩ := delegate_spec c1 c2 to amt r hd
+    have hw2 : w = v2 := by
+      rw [hval1] at hw
+      split at hw
+      · cases hw
+      · cases hw; rfl
+    subst hw2
+    have hdm1 : dm c1 to = dm c to := by unfold dm; rw [hto1]
+    have hto2 : c2.del to = some ⟨dm c to + r.m⟩ := by
+      rw [hdel2]; simp only [updD, ite_true]; rw [hdm1]
+    refine ⟨x, v, w, amt, hx, hv, hpos, hle, hred, hg, hr, ?_, ?_, by rw [g1, f1], by rw [g2, f2], by rw [g3, f3],
+      by rw [g4, f4], ?_, Or.inr ⟨hns, v3, hinv, ha, hval2, hto2⟩⟩
+    · rw [hdel2]; simp only [updD, hne, ite_false]; exact hfrm1
+    · intro a h1 h2
+      rw [hdel2]; simp only [updD, h2, ite_false]; exact hoth1 a h1
+    · have e : dm c2 to = (match c2.del to with | some d => d.m | none => 0) := rfl
+      rw [e, hto2]
 
 /-- what unbond-then-delegate does to the validator record -/
 theorem xfer_val (v v2 v3 : Val) (sh r : Dec) (amt : Int) (h1 : v.removeDelShares sh = some (v2, amt))
